@@ -1054,6 +1054,10 @@ func (g *FuncGen) execReturn(x *ssa.Return) {
 	for _, r := range x.Results {
 		res = append(res, g.val(r))
 	}
+	if g.inlineRets != nil {
+		*g.inlineRets = append(*g.inlineRets, inlineRet{guard: g.guard, vals: res, st: g.st.clone()})
+		return
+	}
 	g.checkExit(res, x.Pos())
 }
 
